@@ -424,3 +424,51 @@ def rule_gram_fields(ctx: RuleContext, p: Program, tcs: list, rid: str) -> None:
                   note=f'{len(seqs)} child layouts, {len(tc.fields)} slots')
     if n < 30:
         raise AnalysisError(f'GRAM-FIELDS: only {n} classes compared with the grammar')
+
+
+# ====================================================================== GRAM-OPT (added after seeded round 5)
+def rule_gram_opt(ctx: RuleContext, p: Program, tcs: list, rid: str) -> None:
+    import itertools
+    ctx.rule(rid, 'the optional children of a tree model are independently optional in the grammar: every child the model declares optional '
+                  '(and that the grammar can deliver at all -- comments and marks attached after parsing are not among them) can be set or '
+                  'cleared on its own through its raw property, so every presence combination must be a child layout the compiled grammar '
+                  'produces for that rule; a combination the grammar lacks is a model that constructs and prints but does not parse back')
+    g = grammar(p)
+    sh = _Shape(g)
+    n = 0
+    for tc in tcs:
+        rule = p.class_const(tc.cls, 'RULE')
+        if not isinstance(rule, ast.Constant) or rule.value not in sh.by_origin:
+            continue
+        seqs = [q for q in sh.children(rule.value) if len(q) == len(tc.fields)]
+        if not seqs:
+            continue
+
+        def is_none(k: tuple) -> bool:
+            return k == ('None', '') or (k[0] == 'T' and k[1].startswith('NEVER'))
+        opt = [i for i, f in enumerate(tc.fields) if f.optional and f.kind != 'repeated' and any(any(not is_none(k) for k in q[i]) for q in seqs)]
+        if not opt:
+            continue
+        if len(opt) > 8:
+            raise AnalysisError(f'GRAM-OPT: {tc.cls.name} has {len(opt)} optional children')
+        allowed: set = set()
+        for q in seqs:
+            poss = []
+            for i in opt:
+                poss.append(([False] if any(is_none(k) for k in q[i]) else []) + ([True] if any(not is_none(k) for k in q[i]) else []))
+            allowed.update(itertools.product(*poss))
+        missing = [c for c in itertools.product([False, True], repeat=len(opt)) if c not in allowed]
+        n += 1
+        site = f'{tc.cls.module.name.split(".", 1)[1]}:{tc.cls.name}'
+        names = [tc.fields[i].name.lstrip('_') for i in opt]
+        if missing:
+            combo = missing[0]
+            shown = ', '.join(f'{nm} {"present" if pr else "absent"}' for nm, pr in zip(names, combo))
+            ctx.fail(rid, site, f'rule {rule.value}: {shown}',
+                     f'the grammar rule {rule.value} has no child layout for [{shown}] ({len(missing)} of {2 ** len(opt)} presence combinations of '
+                     f'{names} are missing), but each of these children is optional on its own in {tc.cls.name}: a model in that state -- built '
+                     f'by from_value / from_children or reached by clearing one child -- prints text that the parser rejects', tc.cls.where)
+        else:
+            ctx.ok(rid, site, f'{names}: all {2 ** len(opt)} presence combinations are grammatical')
+    if n < 20:
+        raise AnalysisError(f'GRAM-OPT: only {n} classes with grammar-delivered optional children')
